@@ -501,6 +501,16 @@ func (s *Server) processUpstream(dctx *dnsContext) (rc resultCode) {
 	}
 
 	if dctx.err = prx.Resolve(pctx); dctx.err != nil {
+		if dctx.origQuestion.Name != "" {
+			// The question has been replaced with the one for the canonical
+			// name by a rewrite.  Restore it, since the error response is
+			// generated from the request and is not processed any further.
+			req.Question[0] = dctx.origQuestion
+			if resp := pctx.Res; resp != nil && len(resp.Question) > 0 {
+				resp.Question[0] = dctx.origQuestion
+			}
+		}
+
 		return resultCodeError
 	}
 
